@@ -896,6 +896,158 @@ Proof.
   - apply all_body_add_blocks, all_body_init.
 Qed.
 
+(** * A pre-validated batch whose prefix is already on our best chain
+    AddValidatedV2Blocks skips the blocks it already has on the best chain and goes on
+    ([store_validated], fix b5712b1): the rest of the batch is stored and, if its last block
+    is sufficiently heavier than our tip, adopted. *)
+Lemma last_indep {A} (l : list A) c d : l ≠ [] → List.last l c = List.last l d.
+Proof. intros Hne. destruct l as [|x l _] using rev_ind; [done|]. by rewrite !last_last. Qed.
+
+Lemma known_prefix_batch_adopted :
+  ∀ U m c pre suf,
+    WF U → MInv U m → all_body m →
+    c ∈ best m → (∀ x, x ∈ pre → x ∈ best m) →
+    suf ≠ [] → lp U (reverse (pre ++ suf)) c →
+    (∀ x, x ∈ pre ++ suf → okb U x = true) →
+    heavier U (List.last suf c) (tip m) = true →
+    ∃ m', add_validated U m (pre ++ suf) = (m', Ok, true) ∧ tip m' = List.last suf c ∧
+          MInv U m' ∧ all_body m' ∧ (∀ x, x ∈ suf → x ∈ best m').
+Proof.
+  intros U m c pre suf HWF HI Hab Hc _ Hne Hl Hok Hhv.
+  destruct (add_validated_live U HWF m c (pre ++ suf)) as (m' & E & HI' & Hab' & _ & Ht);
+    try done.
+  { by apply hangs_best. }
+  { intros He. apply app_eq_nil in He as [_ ?]. done. }
+  rewrite last_app_ne in E, Ht by done.
+  rewrite (last_indep suf (List.last pre c) c) in E, Ht by done.
+  rewrite Hhv in E, Ht. exists m'. split_and!; try done.
+  rewrite reverse_app in Hl. apply lp_app in Hl as [Hl _].
+  destruct (chain_split U HWF (best m') (reverse suf) (hd c (reverse pre)) (I_chain U m' HI'))
+    as (rest & Hb); [|done|].
+  - rewrite hd_reverse_last. fold (tip m'). rewrite Ht. by apply last_indep.
+  - intros x Hx. rewrite Hb. apply elem_of_app. left. by apply elem_of_reverse.
+Qed.
+
+(** the same through the syncer's [submit], for a request at or above the require height *)
+Lemma submit_known_prefix U P m bh c pre suf :
+  WF U → MInv U m → all_body m → reqh P ≤ bh →
+  c ∈ best m → (∀ x, x ∈ pre → x ∈ best m) →
+  suf ≠ [] → lp U (reverse (pre ++ suf)) c →
+  (∀ x, x ∈ pre ++ suf → okb U x = true) →
+  heavier U (List.last suf c) (tip m) = true →
+  ∃ m', submit U P m bh (pre ++ suf) = (m', Ok, true) ∧ tip m' = List.last suf c ∧
+        MInv U m' ∧ all_body m' ∧ (∀ x, x ∈ suf → x ∈ best m').
+Proof.
+  intros HWF HI Hab Hr. unfold submit. replace (reqh P <=? bh) with true by lia.
+  by apply known_prefix_batch_adopted.
+Qed.
+
+(** the seeded variant: the store loop *returns* at the first block that is already on the
+    best chain (reporting success) instead of continuing *)
+Fixpoint store_until_known (m : mgr) (batch : list N) : mgr * bool :=
+  match batch with
+  | [] => (m, false)
+  | b :: rest =>
+      if has_state m b && on_best m b then (m, true)
+      else store_until_known
+             (Mgr (<[b := KI (Some SFull) true true]> (known m)) (best m)) rest
+  end.
+Definition add_validated_stop (U : universe) (m : mgr) (batch : list N) : mgr * outcome * bool :=
+  match batch with
+  | [] => (m, Ok, false)
+  | b0 :: _ =>
+      match U !! b0 with
+      | None => (m, Err, false)
+      | Some B0 =>
+          if negb (has_state m (parent B0)) then (m, Err, false)
+          else match store_until_known m batch with
+               | (m1, true) => (m1, Ok, false)                    (* "return nil" *)
+               | (m1, false) => maybe_reorg U m1 (List.last batch b0)
+               end
+      end
+  end.
+
+Section KnownPrefix.
+  (** genesis 0; trunk 1-2-3; our own block 4 on 3; the peer's fork 5-6 on 3 *)
+  Definition kpU : universe := list_to_map [
+    (0, Blk 0 0 true false true 10 10);
+    (1, Blk 0 1 true false true 20 10);
+    (2, Blk 1 2 true false true 30 10);
+    (3, Blk 2 3 true false true 40 10);
+    (4, Blk 3 4 true false true 50 10);
+    (5, Blk 3 4 true false true 51 10);
+    (6, Blk 5 5 true false true 62 10) ].
+  Definition kpm : mgr := (add_blocks kpU init [1; 2; 3; 4]).1.1.
+
+  Lemma kpU_wf : WF kpU.
+  Proof. apply wfb_sound. vm_compute. reflexivity. Qed.
+  Lemma kpm_best : best kpm = [4; 3; 2; 1; 0].
+  Proof. vm_compute. reflexivity. Qed.
+
+  Lemma kp_hyps :
+    WF kpU ∧ MInv kpU kpm ∧ all_body kpm ∧
+    1 ∈ best kpm ∧ (∀ x, x ∈ [2; 3] → x ∈ best kpm) ∧
+    [5; 6] ≠ [] ∧ lp kpU (reverse ([2; 3] ++ [5; 6])) 1 ∧
+    (∀ x, x ∈ [2; 3] ++ [5; 6] → okb kpU x = true) ∧
+    heavier kpU (List.last [5; 6] 1) (tip kpm) = true.
+  Proof.
+    split_and!.
+    - apply kpU_wf.
+    - apply fresh_node_inv, kpU_wf.
+    - apply fresh_node_inv, kpU_wf.
+    - rewrite kpm_best. set_solver.
+    - rewrite kpm_best. set_solver.
+    - done.
+    - vm_compute. split_and!; eauto; done.
+    - intros x Hx. cbn [app] in Hx.
+      repeat (apply elem_of_cons in Hx as [->|Hx]; [vm_compute; reflexivity|]).
+      by apply elem_of_nil in Hx.
+    - vm_compute. reflexivity.
+  Qed.
+
+  (** the theorem applies, and the result is the peer's chain *)
+  Example kp_adopted :
+    ∃ m', add_validated kpU kpm ([2; 3] ++ [5; 6]) = (m', Ok, true) ∧ tip m' = 6 ∧
+          MInv kpU m' ∧ all_body m' ∧ (∀ x, x ∈ [5; 6] → x ∈ best m').
+  Proof.
+    destruct kp_hyps as (? & ? & ? & ? & ? & ? & ? & ? & ?).
+    by apply (known_prefix_batch_adopted kpU kpm 1 [2; 3] [5; 6]).
+  Qed.
+
+  Example kp_adopted_computed :
+    ∃ m', add_validated kpU kpm ([2; 3] ++ [5; 6]) = (m', Ok, true) ∧
+          best m' = [6; 5; 3; 2; 1; 0].
+  Proof. eexists. vm_compute. split; reflexivity. Qed.
+
+  Example kp_stop_computed :
+    ∃ m', add_validated_stop kpU kpm ([2; 3] ++ [5; 6]) = (m', Ok, false) ∧
+          best m' = [4; 3; 2; 1; 0] ∧ has_hdr m' 5 = false.
+  Proof. eexists. vm_compute. split_and!; reflexivity. Qed.
+
+  (** returning at the first known block loses the batch: the call reports success, stores
+      nothing and stays on the lighter chain, although every hypothesis under which the real
+      entry point adopts the batch holds *)
+  Lemma stop_at_known_block_refuted :
+    ∃ U m c pre suf,
+      WF U ∧ MInv U m ∧ all_body m ∧
+      c ∈ best m ∧ (∀ x, x ∈ pre → x ∈ best m) ∧
+      suf ≠ [] ∧ lp U (reverse (pre ++ suf)) c ∧
+      (∀ x, x ∈ pre ++ suf → okb U x = true) ∧
+      heavier U (List.last suf c) (tip m) = true ∧
+      (∃ m', add_validated U m (pre ++ suf) = (m', Ok, true) ∧ tip m' = List.last suf c) ∧
+      (∃ m', add_validated_stop U m (pre ++ suf) = (m', Ok, false) ∧
+             best m' = best m ∧ tip m' ≠ List.last suf c).
+  Proof.
+    exists kpU, kpm, 1, [2; 3], [5; 6].
+    destruct kp_hyps as (? & ? & ? & ? & ? & ? & ? & ? & ?).
+    split_and!; try done.
+    - destruct kp_adopted as (m' & ? & ? & _). eauto.
+    - destruct kp_stop_computed as (m' & E & Hb & _). exists m'. split_and!; [done| |].
+      + by rewrite Hb, kpm_best.
+      + unfold tip. rewrite Hb. cbn. done.
+  Qed.
+End KnownPrefix.
+
 (** * The literal statement is false: two sibling blocks of equal work (F11) *)
 Section Refute.
   Definition refU : universe := list_to_map [
